@@ -353,7 +353,7 @@ func (bc *BlockChain) GasLimit() uint64 {
 // CurrentBlock retrieves the current head block of the canonical chain. The
 // block is retrieved from the blockchain's internal cache.
 func (bc *BlockChain) CurrentBlock() *types.Block {
-	b := bc.currentBlock.Load().(*types.Block)
+	b, _ := bc.currentBlock.Load().(*types.Block)
 	//b.SetVersion(bc.Config().GetBlockVersion(b.Number()))
 	return b
 }
@@ -361,7 +361,8 @@ func (bc *BlockChain) CurrentBlock() *types.Block {
 // CurrentFastBlock retrieves the current fast-sync head block of the canonical
 // chain. The block is retrieved from the blockchain's internal cache.
 func (bc *BlockChain) CurrentFastBlock() *types.Block {
-	return bc.currentFastBlock.Load().(*types.Block)
+	b, _ := bc.currentFastBlock.Load().(*types.Block)
+	return b
 }
 
 // SetProcessor sets the processor required for making state modifications.
